@@ -16,6 +16,7 @@ Sources of the definitions
 from __future__ import annotations
 
 import itertools
+import math
 from collections import Counter
 
 # --------------------------------------------------------------------------------------------
@@ -478,8 +479,8 @@ FUNC = dict(TABLE)
 # DEVIATION MODEL of the open finding on the two table entries: longest ascending / descending
 # *run* (consecutive positions) instead of subsequence.
 DEVIATION = {
-    LIS: lambda p: longest_runs(p, True)[0],
-    LDS: lambda p: longest_runs(p, False)[0],
+    LIS: lambda p: (longest_runs(p, True) if len(p) <= 12 else longest_runs_long(p, True))[0],
+    LDS: lambda p: (longest_runs(p, False) if len(p) <= 12 else longest_runs_long(p, False))[0],
 }
 
 
@@ -552,6 +553,8 @@ def selftest(maxn=5):
                 assert longest_monotone_subsequence(p, asc) == \
                     longest_monotone_subsequence_naive(p, asc), p
             assert depth(p) == sum(p[i] - i for i in range(n) if p[i] > i)
+            for asc in (True, False):
+                assert longest_runs_long(p, asc) == longest_runs(p, asc), p
             assert len(inversions(p)) + len(non_inversions(p)) == n * (n - 1) // 2
     t = prime_table(200)
     assert all(t[m] == is_prime(m) for m in range(201))
@@ -568,3 +571,144 @@ def selftest(maxn=5):
     assert passes_needed((1, 2, 0), stack_sort) == 2
     assert simion_schmidt((2, 1, 0)) == (2, 1, 0) and simion_schmidt((1, 0, 2)) == (1, 0, 2)
     return True
+
+
+# --------------------------------------------------------------------------------------------
+# scale families: sparse, structured, fully enumerated families of LONG permutations (no sampling)
+# --------------------------------------------------------------------------------------------
+
+
+def _dsum(a, b):
+    return tuple(a) + tuple(v + len(a) for v in b)
+
+
+def _ssum(a, b):
+    return tuple(v + len(b) for v in a) + tuple(b)
+
+
+def scale_shapes(n):
+    """Structured permutations of length n (n >= 7) with their labels: identity, reverse, rotations,
+    one adjacent transposition in identity / reverse, i -> k*i mod n, layered permutations, 'q first
+    then monotone rest', direct / skew sums of a small permutation with a long monotone one.
+    Returned as a list of (label, tuple), each tuple once."""
+    ident = tuple(range(n))
+    rev = tuple(range(n - 1, -1, -1))
+    out = [("identity", ident), ("reverse", rev)]
+    for r in sorted({1, 2, 7, 8, 9, n // 2, n - 1}):
+        if 0 < r < n:
+            out.append(("rotate-left-%d" % r, ident[r:] + ident[:r]))
+            out.append(("reverse-rotate-left-%d" % r, rev[r:] + rev[:r]))
+    for i in sorted({0, 1, n // 2, n - 3, n - 2}):
+        if 0 <= i < n - 1:
+            for lab, base in (("identity", ident), ("reverse", rev)):
+                q = list(base)
+                q[i], q[i + 1] = q[i + 1], q[i]
+                out.append(("%s-swap-%d" % (lab, i), tuple(q)))
+    for k in (2, 3, 5, 7):
+        if all(n % d or k % d for d in range(2, k + 1)):       # gcd(k, n) == 1
+            out.append(("%d*i mod n" % k, tuple(k * i % n for i in range(n))))
+            out.append(("%d*(i+1) mod n" % k, tuple(k * (i + 1) % n for i in range(n))))
+    # layered: blocks of decreasing entries, blocks increasing
+    for lab, sizes in (("layers-of-2", [2] * (n // 2) + [1] * (n % 2)),
+                       ("layers-1-2-3..", None),
+                       ("one-big-layer", [1, n - 2, 1])):
+        if sizes is None:
+            sizes, s = [], 1
+            while sum(sizes) + s <= n:
+                sizes.append(s)
+                s += 1
+            if sum(sizes) < n:
+                sizes.append(n - sum(sizes))
+        q, base = [], 0
+        for s in sizes:
+            q.extend(range(base + s - 1, base - 1, -1))
+            base += s
+        out.append((lab, tuple(q)))
+        out.append((lab + "-complement", tuple(n - 1 - v for v in q)))
+    for qv in sorted({0, 1, n // 2, n - 2}):
+        rest_dec = [v for v in rev if v != qv]
+        out.append(("first-%d-then-decreasing" % qv, (qv,) + tuple(rest_dec)))
+        out.append(("first-%d-then-increasing" % qv, (qv,) + tuple(reversed(rest_dec))))
+    for small in ((1, 0), (1, 2, 0), (2, 0, 3, 1)):
+        m = n - len(small)
+        for mlab, mono in (("inc", tuple(range(m))), ("dec", tuple(range(m - 1, -1, -1)))):
+            out.append(("%s (+) %s" % (small, mlab), _dsum(small, mono)))
+            out.append(("%s (+) %s" % (mlab, small), _dsum(mono, small)))
+            out.append(("%s (-) %s" % (small, mlab), _ssum(small, mono)))
+            out.append(("%s (-) %s" % (mlab, small), _ssum(mono, small)))
+    seen, uniq = set(), []
+    for lab, p in out:
+        assert sorted(p) == list(range(n)), lab
+        if p not in seen:
+            seen.add(p)
+            uniq.append((lab, p))
+    return uniq
+
+
+def holey_extremal(n):
+    """Permutations built around the extremal structure of holeyness (a set of positions with few
+    runs whose image has many runs): an interval I of k consecutive positions (every k with
+    n//2 + 1 <= k <= n-1, every offset) carries a value set V whose complement C consists of
+    n-k pairwise non-adjacent interior values (every such C), so V splits into n-k+1 runs; V is
+    written increasing or decreasing in I, C increasing in the remaining positions.  Plus block
+    sums: every sequence of blocks from {0, 1302, 2031} of total length n, as direct and as skew
+    sum, and the multiplicative permutations i -> k*(i+1) mod (n+1) - 1 for every k coprime to
+    n+1.  Returned as (label, tuple), each tuple once."""
+    out = []
+    for k in range(n // 2 + 1, n):
+        for comp in itertools.combinations(range(1, n - 1), n - k):
+            if any(comp[t + 1] - comp[t] == 1 for t in range(len(comp) - 1)):
+                continue
+            vals = [v for v in range(n) if v not in comp]
+            for a in range(0, n - k + 1):
+                for lab, inner in (("inc", vals), ("dec", vals[::-1])):
+                    q = list(comp[:a]) + list(inner) + list(comp[a:])
+                    out.append(("interval k=%d at %d, C=%s, %s" % (k, a, list(comp), lab), tuple(q)))
+    blocks = ((0,), (1, 3, 0, 2), (2, 0, 3, 1))
+
+    def seqs(rem):
+        if rem == 0:
+            yield ()
+            return
+        for b in blocks:
+            if len(b) <= rem:
+                for rest in seqs(rem - len(b)):
+                    yield (b,) + rest
+
+    for sq in seqs(n):
+        if all(len(b) == 1 for b in sq):
+            continue
+        d, s = (), ()
+        for b in sq:
+            d, s = _dsum(d, b), _ssum(s, b)
+        lab = "+".join("".join(map(str, b)) for b in sq)
+        out.append(("direct sum " + lab, d))
+        out.append(("skew sum " + lab, s))
+    for k in range(2, n + 1):
+        if math.gcd(k, n + 1) == 1:
+            out.append(("%d*(i+1) mod %d - 1" % (k, n + 1),
+                        tuple(k * (i + 1) % (n + 1) - 1 for i in range(n))))
+    seen, uniq = set(), []
+    for lab, p in out:
+        assert sorted(p) == list(range(n)), lab
+        if p not in seen:
+            seen.add(p)
+            uniq.append((lab, p))
+    return uniq
+
+
+def longest_runs_long(p, ascending=True):
+    """Same definition as longest_runs, quadratic instead of cubic (for the long shapes): the
+    longest monotone window starting at i is found by extending it step by step.  Cross-checked
+    against longest_runs in selftest()."""
+    n = len(p)
+    if n == 0:
+        return (0, [])
+    ext = []
+    for i in range(n):
+        j = i
+        while j + 1 < n and ((p[j] < p[j + 1]) if ascending else (p[j] > p[j + 1])):
+            j += 1
+        ext.append(j - i + 1)
+    best = max(ext)
+    return (best, [i for i in range(n) if ext[i] >= best])
